@@ -92,7 +92,7 @@ impl Method for MeanAbsDev {
 	type Output = ValueType;
 	open spec fn inv(&self) -> bool { self.0.inv() }
 	open spec fn rejects(parameters: PeriodType) -> bool { parameters == 0 }
-	open spec fn new_req(parameters: PeriodType, initial_value: &ValueType) -> bool { parameters < PeriodType::MAX }
+	open spec fn new_req(parameters: PeriodType, initial_value: &ValueType) -> bool { true }
 	open spec fn fresh(parameters: PeriodType, initial_value: &ValueType, s: &Self) -> bool {
 		SMA::fresh(parameters, initial_value, &s.0)
 	}
@@ -115,7 +115,7 @@ impl Method for CCI {
 	type Output = ValueType;
 	open spec fn inv(&self) -> bool { self.0.inv() }
 	open spec fn rejects(parameters: PeriodType) -> bool { parameters == 0 }
-	open spec fn new_req(parameters: PeriodType, initial_value: &ValueType) -> bool { parameters < PeriodType::MAX }
+	open spec fn new_req(parameters: PeriodType, initial_value: &ValueType) -> bool { true }
 	open spec fn fresh(parameters: PeriodType, initial_value: &ValueType, s: &Self) -> bool {
 		MeanAbsDev::fresh(parameters, initial_value, &s.0)
 	}
